@@ -214,7 +214,7 @@ func runIsolated(sp spec) *result {
 		res.add(key, fmt.Sprintf("case %s: the process ended (panic in a library goroutine / stopped by the harness: %s) on input %s [class %s; %s]: %s", sp.id(), site, cur.id, cur.class, cur.rest, clip(panicLines(out), 500)))
 		res.count("child_deaths", 1)
 		from = cur.idx + 1
-		if deathsByKey[key] >= 3 {
+		if deathsByKey[key] >= 3 || (runErr == errChildTimeout && deathsByKey[key] >= 2) {
 			// the same defect keeps killing: stop probing this context (the finding is reported)
 			res.count("probe_inputs_not_run_after_3_identical_deaths", 1)
 			return res
@@ -224,7 +224,7 @@ func runIsolated(sp spec) *result {
 }
 
 // childWallLimit is a harness watchdog only (never part of an oracle verdict other than "it hangs").
-const childWallLimit = 60 * time.Second
+const childWallLimit = 30 * time.Second
 
 var errChildTimeout = errors.New("child timed out")
 
@@ -262,19 +262,16 @@ func tailOf(s string, n int) string {
 	return s
 }
 
+// panicLines keeps the panic message only (no goroutine numbers, no addresses: the text must be
+// identical on every re-execution).
 func panicLines(out string) string {
-	var keep []string
-	on := false
 	for _, l := range strings.Split(out, "\n") {
 		if strings.HasPrefix(l, "panic:") || strings.HasPrefix(l, "fatal error:") {
-			on = true
+			return strings.TrimSpace(l)
 		}
-		if on && !strings.HasPrefix(l, "\t") && l != "" {
-			keep = append(keep, l)
-		}
-		if len(keep) >= 8 {
-			break
+		if strings.HasPrefix(l, childTag+" STORM") {
+			return strings.TrimSpace(strings.TrimPrefix(l, childTag+" "))
 		}
 	}
-	return strings.Join(keep, " / ")
+	return "(no panic line)"
 }
